@@ -164,3 +164,40 @@ let run_cfgload parts =
   | Inr _ -> "started"
 
 let () = register "cfgload" run_cfgload
+
+(* cachedseqspec: the C12 / C03 oracles on a cached, prefetching proxy.  Fields: cfg, steps=<l>/<client>/<qhex>/<gap>;..,
+   up, r<i>=<hex | !status>, upq=<idx>:<hex>|..  Every response is judged by [spec_response] for ITS query; every
+   upstream query (the miss's and the prefetch's) must be the one [spec_upstream] allows for SOME step's query and
+   client (the prefetch acts for the client whose hit started it). *)
+let run_cachedseqspec parts =
+  let f = fields parts in
+  let c = parse_cfg (fld f "cfg") in
+  let steps = List.map (fun s -> match String.split_on_char '/' s with
+      | [l; client; q; _] -> (l, client, q) | _ -> failwith "bad step") (split ';' (fld f "steps")) in
+  let decoded = List.map (fun (l, client, q) ->
+      let l0 = List.hd (String.split_on_char '-' l) in
+      (listener_of l0, client_of l0 client, unpack_msg (bytes_of_hex q))) steps in
+  let rverdicts = List.mapi (fun i (lk, _, mq) ->
+      let r = fld f (Printf.sprintf "r%d" (i + 1)) in
+      match mq with
+      | Ok m ->
+        if String.length r > 0 && r.[0] = '!' then "FAIL:c03-no-response"
+        else if r = "-" then "FAIL:c03-no-response"
+        else
+          let (_, failed) = up_outcome m (fld f "up") in
+          verdict_str (spec_response (matches_of c) c.rules lk m failed (bytes_of_hex r))
+      | _ -> "ok") decoded in
+  let obs = List.map (fun o -> match String.index_opt o ':' with
+      | Some i -> (nat_of_int (int_of_string (String.sub o 0 i)), bytes_of_hex (String.sub o (i + 1) (String.length o - i - 1)))
+      | None -> failwith "bad obs") (if fld f "upq" = "-" then [] else split '|' (fld f "upq")) in
+  let overdicts = List.map (fun o ->
+      let vs = List.filter_map (fun (_, client, mq) -> match mq with
+          | Ok m -> Some (spec_upstream (matches_of c) c.rules c.ecs m client false [o])
+          | _ -> None) decoded in
+      if List.exists (fun v -> v = VOk) vs then "ok"
+      else (match vs with v :: _ -> verdict_str v | [] -> "ok")) obs in
+  match List.filter (fun v -> v <> "ok") (rverdicts @ overdicts) with
+  | [] -> "spec=ok"
+  | v :: _ -> "spec=" ^ v
+
+let () = register "cachedseqspec" run_cachedseqspec
